@@ -292,6 +292,112 @@ Theorem C01_compose_examples :
 Proof. split; [exact ex_accepted | split; [exact ex_by_name | split; [exact toy2_accepted | exact toy2_fresh]]]. Qed.
 Print Assumptions C01_compose_examples.
 
+(** * From the variable definitions WITH THEIR FUNCTION SIGNATURES (Compose/FromDictState.v; docs/Compose.md).
+
+    Above, a definition [DLinked axis params f] GIVES the parameter list and [dag_of_defs] is "the mapping the constructor
+    receives".  Below the parameter list is COMPUTED: [ds] is a list of [FromDict.vdef] — a [LinkedVariable] is described by
+    what [inspect.signature] reports of its function (or by the names assigned by a [NamedInputFunction], possibly through
+    [.then]) —, [FromDict.from_dict] is the model of [VariablesDAG.from_dict] (C15: [get_named_parameters], then the
+    constructor), and [graph_from_definitions V hv ax fs ds r v0] = [graph_of_build (sdefs V hv ax fs ds) r v0] where [sdefs]
+    attaches to each definition what the DAG never looks at ([hv i] hyper-parameter value, [ax i] axis flag, [fs i] node
+    function) and takes as parameters the names [get_named_parameters] returns.  The only hypothesis on the graph side is
+    [from_dict ds = FOk r]. *)
+From Leaspy Require Dag.FromDict.
+From Leaspy Require Import Compose.FromDictState Compose.FromDictStateProofs Compose.FromDictStateExamples.
+
+(** The graph is well formed, has one node per definition, and the parents of a node are exactly the named parameters of
+    the function defining it (names re-indexed by the order the constructor delivered).   Example: [sx_wf], [sx_parents]. *)
+Theorem C01_graph_from_definitions_wf :
+  forall (V : Type) (hv : nat -> V) (ax : nat -> bool) (fs : nat -> list V -> V) (ds : list FromDict.vdef)
+         (r : DagModel.dag) (v0 : V),
+    FromDict.from_dict ds = FromDict.FOk r ->
+    WF (graph_from_definitions V hv ax fs ds r v0) /\
+    gn (graph_from_definitions V hv ax fs ds r v0) = length ds /\
+    forall k p, k < length ds ->
+      (In p (parents (graph_from_definitions V hv ax fs ds r v0) k) <->
+       exists q, FromDict.is_param_of ds q (nth k (DagModel.order r) 0) /\ p = index_of q (DagModel.order r)).
+Proof. exact graph_from_definitions_wf_parents. Qed.
+Print Assumptions C01_graph_from_definitions_wf.
+
+(** ... and [from_dict] accepts every list of definitions whose functions have keyword-only parameters only and that has
+    no unknown / self / isolated / cyclic dependency (C15_from_dict_accepts_iff): the statements below are about all of them. *)
+Theorem C01_accepted_definitions_have_wf_graph :
+  forall (V : Type) (hv : nat -> V) (ax : nat -> bool) (fs : nat -> list V -> V) (ds : list FromDict.vdef) (v0 : V),
+    ~ FromDict.bad_signature ds -> ~ FromDict.unknown_param ds -> ~ FromDict.self_param ds ->
+    ~ FromDict.isolated_def ds -> ~ FromDict.cyclic_defs ds ->
+    exists r, FromDict.from_dict ds = FromDict.FOk r /\ WF (graph_from_definitions V hv ax fs ds r v0).
+Proof. exact accepted_definitions_have_WF_graph. Qed.
+Print Assumptions C01_accepted_definitions_have_wf_graph.
+
+(** [C01_never_stale_built] with hypotheses on the DEFINITIONS only.   Example: [sx_by_name]. *)
+Theorem C01_never_stale_from_definitions :
+  forall (V M IX : Type) (hv : nat -> V) (ax : nat -> bool) (fs : nat -> list V -> V) (ds : list FromDict.vdef)
+         (r : DagModel.dag) (v0 : V) (sm : sem V M IX),
+    FromDict.from_dict ds = FromDict.FOk r ->
+    F_mix (graph_from_definitions V hv ax fs ds r v0) sm ->
+    forall ops, MaskDisciplined (graph_from_definitions V hv ax fs ds r v0) sm
+                  (init_store (graph_from_definitions V hv ax fs ds r v0)) ops ->
+    forall k i st v,
+      nth_error (fst (run_now (graph_from_definitions V hv ax fs ds r v0) sm
+                        (init_store (graph_from_definitions V hv ax fs ds r v0)) ops)) k = Some st ->
+      snd (step_now (graph_from_definitions V hv ax fs ds r v0) sm
+             (fst (run_now (graph_from_definitions V hv ax fs ds r v0) sm
+                     (init_store (graph_from_definitions V hv ax fs ds r v0)) ops)) (Get k i)) = Ok v ->
+      scratch (graph_from_definitions V hv ax fs ds r v0) (values st) i = Some v.
+Proof. exact never_stale_from_definitions. Qed.
+Print Assumptions C01_never_stale_from_definitions.
+
+(** Histories without per-individual reverts: nothing but acceptance by [from_dict]. *)
+Theorem C01_never_stale_full_reverts_from_definitions :
+  forall (V M IX : Type) (hv : nat -> V) (ax : nat -> bool) (fs : nat -> list V -> V) (ds : list FromDict.vdef)
+         (r : DagModel.dag) (v0 : V) (sm : sem V M IX),
+    FromDict.from_dict ds = FromDict.FOk r ->
+    forall ops, forallb (@no_partial_revert V M IX) ops = true ->
+    forall k i st v,
+      nth_error (fst (run_now (graph_from_definitions V hv ax fs ds r v0) sm
+                        (init_store (graph_from_definitions V hv ax fs ds r v0)) ops)) k = Some st ->
+      snd (step_now (graph_from_definitions V hv ax fs ds r v0) sm
+             (fst (run_now (graph_from_definitions V hv ax fs ds r v0) sm
+                     (init_store (graph_from_definitions V hv ax fs ds r v0)) ops)) (Get k i)) = Ok v ->
+      scratch (graph_from_definitions V hv ax fs ds r v0) (values st) i = Some v.
+Proof. exact never_stale_full_reverts_from_definitions. Qed.
+Print Assumptions C01_never_stale_full_reverts_from_definitions.
+
+(** Reads by NAME: what the read of the variable named [x] returns is the from-scratch value of the definitions ([Eval]: no
+    order, no graph construction), every linked definition taking the values of the named parameters of its signature. *)
+Theorem C01_read_by_name_from_definitions :
+  forall (V M IX : Type) (hv : nat -> V) (ax : nat -> bool) (fs : nat -> list V -> V) (ds : list FromDict.vdef)
+         (r : DagModel.dag) (v0 : V) (sm : sem V M IX),
+    FromDict.from_dict ds = FromDict.FOk r ->
+    F_mix (graph_from_definitions V hv ax fs ds r v0) sm ->
+    forall ops, MaskDisciplined (graph_from_definitions V hv ax fs ds r v0) sm
+                  (init_store (graph_from_definitions V hv ax fs ds r v0)) ops ->
+    forall k x st, x < length ds ->
+      nth_error (fst (run_now (graph_from_definitions V hv ax fs ds r v0) sm
+                        (init_store (graph_from_definitions V hv ax fs ds r v0)) ops)) k = Some st ->
+      let res := snd (step_now (graph_from_definitions V hv ax fs ds r v0) sm
+                        (fst (run_now (graph_from_definitions V hv ax fs ds r v0) sm
+                                (init_store (graph_from_definitions V hv ax fs ds r v0)) ops))
+                        (Get k (index_of x (DagModel.order r)))) in
+      (forall v, res = Ok v <-> Eval (sdefs V hv ax fs ds) (by_name V r (values st)) x v) /\
+      (res = Err InputError <-> forall v, ~ Eval (sdefs V hv ax fs ds) (by_name V r (values st)) x v) /\
+      (forall e, res = Err e -> e = InputError).
+Proof. exact read_by_name_from_definitions. Qed.
+Print Assumptions C01_read_by_name_from_definitions.
+
+(** Non-vacuity: definitions given by signatures (a lambda with keyword-only parameters one of which has a default, a
+    NamedInputFunction through [.then] whose outer function has a parameter named like another variable, a [Sum]) are
+    accepted; the parameter lists computed from the signatures are the hand-written ones of [C01_compose_examples]; after a
+    rejected proposal the read of "s" is the from-scratch value; a positional-or-keyword parameter is refused. *)
+Theorem C01_from_definitions_examples :
+  (FromDict.from_dict sx_ds = FromDict.FOk sx_r /\ DagModel.order sx_r = [1; 2; 4; 0; 3; 5]) /\
+  map (@d_params Z) (sdefs Z sx_hv sx_ax sx_fs sx_ds) = map (@d_params Z) ex_defs /\
+  (exists st, nth_error (fst (run_now sx_g ex_sem (init_store sx_g) sx_ops)) 0 = Some st /\
+              by_name Z sx_r (values st) 1 = Some 10%Z /\ scratch sx_g (values st) (sx_pos 5) = Some (-7)%Z) /\
+  (parents sx_g 3 = [1; 0] /\ FromDict.is_param_of sx_ds 1 0).
+Proof. split; [exact sx_accepted | split; [exact sx_params | split; [exact sx_by_name | exact sx_parents]]]. Qed.
+Print Assumptions C01_from_definitions_examples.
+
 (** * C01 and C07 speak about the same values (Compose/AxisEval.v).
     On a well-typed graph accepted by the constructor, what the State reads after ANY history respecting the documented
     precondition is [AxisTypes.eval] — the from-scratch evaluation the theorems of C07 are about — of the inputs the state
